@@ -16,7 +16,7 @@ from vlib.runner import np_rng
 
 ID = "C04"
 RULE = ("one case = one basis string (all 3^n strings over {X,Y,Z} for n<=4 enumerated; sampled strings for n=5..7; "
-        "user dictionaries with Haar-random 2x2 unitaries) exercised on positive/complex/mixed model states and on "
+        "user dictionaries with Haar-random and structured (Hermitian-complex, real, diagonal, anti-Hermitian, symmetric) 2x2 unitaries) exercised on positive/complex/mixed model states and on "
         "explicit complex psi / Hermitian rho (PSD, indefinite, real symmetric) with several outcome batches. "
         "Non-trivial: string is not all-Z and not a single repeated letter, explicit inputs have non-zero imaginary "
         "part; distinct by (n, string, dictionary digest).")
@@ -49,7 +49,7 @@ def cases(tier, seed):
     for i in range(ns):
         n = int(rng.integers(5, 8))
         out.append({"t": "string", "n": n, "basis": "".join(rng.choice(list("XYZ"), size=n)), "seed": seed, "rep": i})
-    nu = 12 if tier == "quick" else 2500
+    nu = 36 if tier == "quick" else 2500
     for i in range(nu):
         out.append({"t": "user", "n": int(rng.integers(1, 5)), "rep": i, "seed": seed})
     nd = 9 if tier == "quick" else 1200
@@ -248,9 +248,16 @@ def run_case(case, ctx):
     elif t == "user":
         n = case["n"]
         letters = list("ABH")[: int(rng.integers(1, 4))]
-        ud = {l: gen.haar_2x2(rng) for l in letters}
+        # user unitaries from structural classes as well as generic ones (Hermitian with complex entries, real, diagonal,
+        # anti-Hermitian, complex symmetric ...): a shortcut keyed on such a structure is invisible to Haar-random matrices
+        ud = {}
+        for li, l in enumerate(letters):
+            # classes are walked systematically (rep, letter position), not drawn: every quick run sees every class
+            ucls = gen.UNITARY_CLASSES[(case["rep"] // 2 + 3 * li) % len(gen.UNITARY_CLASSES)]
+            ud[l], ucls = gen.structured_2x2(rng, ucls) if case["rep"] % 2 == 0 else (gen.haar_2x2(rng), "haar")
+            ctx.seen("user_unitary_classes", ucls)
         if rng.random() < 0.5:
-            ud["X"] = gen.haar_2x2(rng)
+            ud["X"] = gen.structured_2x2(rng)[0] if case["rep"] % 2 == 0 else gen.haar_2x2(rng)
         from qucumber.utils import unitaries
 
         udict_t = unitaries.create_dict(**{k: gen.enc(v) for k, v in ud.items()})
@@ -265,7 +272,7 @@ def run_case(case, ctx):
         exercise(ctx, rng, n, basis, udict_t, sts2, {"string": basis, "user_dict": True}, pass_unitaries=True)
         # history: a SECOND dictionary in the same process re-using the same letters with different matrices
         # (and, when a default letter is overridden, a basis that contains it): results must follow the dictionary given
-        ud_b = {l: gen.haar_2x2(rng) for l in ud}
+        ud_b = {l: (gen.structured_2x2(rng)[0] if case["rep"] % 4 == 1 else gen.haar_2x2(rng)) for l in ud}
         udict_b = unitaries.create_dict(**{k: gen.enc(v) for k, v in ud_b.items()})
         basis_b = basis
         if "X" in ud_b and "X" not in basis_b:
